@@ -132,6 +132,8 @@ class SimCF:
     # ---- TOC helper ----------------------------------------------------------------------------------
     def _toc(self, data, n, crc, item):
         cmd = data[0]
+        if cmd in (2, 3) and not self.v2:
+            return []           # a firmware of the first protocol generation does not know the 16-bit commands
         if cmd == 1:            # info v1
             return [struct.pack('<BBIBB', 1, n & 0xff, crc, 16, 128)]
         if cmd == 3:            # info v2
